@@ -258,19 +258,7 @@ impl Property for C15 {
     }
     fn strategy(&self, _tier: Tier) -> BoxedStrategy<Program> {
         (proptest::collection::vec(any::<u16>(), 120), any::<u16>(), proptest::collection::vec((any::<u16>(), any::<u16>(), any::<u16>()), 3), any::<u16>())
-            .prop_map(|(us, src, muts, nm)| {
-                if pick(src, 4) == 0 {
-                    random_program(&us)
-                } else {
-                    let l = 1 + pick(us[1], if us[2] % 4 == 0 { 10 } else { 3 });
-                    let mut p = valid_program(&us, l, 1 + pick(us[3], 3), 1 + pick(us[4], 10), 1 + pick(us[5], 3));
-                    let n_mut = pick(nm, 4);
-                    for (sel, a, b) in muts.iter().take(n_mut) {
-                        mutate(&mut p, *sel, *a, *b);
-                    }
-                    p
-                }
-            })
+            .prop_map(|(us, src, muts, nm)| program_from_raw(&us, src, &muts, nm))
             .boxed()
     }
     fn enumerate(&self, tier: Tier) -> Option<(String, Box<dyn Iterator<Item = Program> + Send>)> {
@@ -278,5 +266,26 @@ impl Property for C15 {
     }
     fn check(&self, case: &Program) -> Check {
         check_program(case)
+    }
+}
+
+/// the pure construction behind the strategy (also used by the fuzz target)
+pub fn program_from_raw(us: &[u16], src: u16, muts: &[(u16, u16, u16)], nm: u16) -> Program {
+    {
+        {
+            {
+                if pick(src, 4) == 0 {
+                    random_program(us)
+                } else {
+                    let l = 1 + pick(us[1], if us[2] % 4 == 0 { 10 } else { 3 });
+                    let mut p = valid_program(us, l, 1 + pick(us[3], 3), 1 + pick(us[4], 10), 1 + pick(us[5], 3));
+                    let n_mut = pick(nm, 4);
+                    for (sel, a, b) in muts.iter().take(n_mut) {
+                        mutate(&mut p, *sel, *a, *b);
+                    }
+                    p
+                }
+            }
+        }
     }
 }
